@@ -279,8 +279,74 @@ def check_parse(ctx, rng, kind, ver, name, cls, w):
             ctx.violation("registration-leaks-into-other-version", "%r registered for %s only parsed (lenient) to its class under version %s" % (name, ver, other), dict(w, input=d2))
 
 
+def wl_toplevel(ctx, rng, i):
+    """A registered toplevel-property-extension: its properties are the host's own, in every form the extension value can take
+    (dictionary, instance of the registered class) and along every way the library itself re-builds the host (new version, revoke,
+    deep copy, serialize/parse)."""
+    import copy
+    import stix2
+    from stix2 import properties as P
+    ename = "extension-definition--" + V.uuid_text(rng, 4)
+    pa, pb = "rank_%d" % (i % 7), "tier_%d" % (i % 5)
+
+    class Ext(object):
+        extension_type = "toplevel-property-extension"
+    try:
+        with warnings.catch_warnings():
+            warnings.simplefilter("ignore")
+            cls = stix2.v21.CustomExtension(ename, [(pa, P.IntegerProperty(required=True)), (pb, P.StringProperty())])(Ext)
+    except family() as e:
+        ctx.violation("valid-registration-refused", "registering a toplevel-property-extension raised %s" % type(e).__name__, {"name": ename, "exception": repr(e)})
+        return
+    host_cls, base = rng.choice([(stix2.v21.Identity, {"name": "n"}), (stix2.v21.File, {"name": "f"}), (stix2.v21.Campaign, {"name": "c"})])
+    w = {"extension": ename, "host": host_cls.__name__, "properties": [pa, pb]}
+    forms = {"dictionary": lambda: {"extension_type": "toplevel-property-extension"}, "instance of the registered class": lambda: cls()}
+    made = {}
+    for fname, mk in forms.items():
+        ctx.ev()
+        try:
+            with warnings.catch_warnings():
+                warnings.simplefilter("ignore")
+                h = host_cls(extensions={ename: mk()}, **dict(base, **{pa: 3, pb: "x"}))
+        except family() as e:
+            ctx.violation("toplevel-extension-property-refused", "a property of a registered toplevel-property-extension was refused when the extension is given as %s: %s" % (fname, str(e)[:120]),
+                          dict(w, form=fname, exception=repr(e)))
+            continue
+        made[fname] = h
+        if h.has_custom or h.get(pa) != 3:
+            ctx.violation("toplevel-extension-property-counted-as-custom", "host built with the extension given as %s: has_custom=%s, %s=%r" % (fname, h.has_custom, pa, h.get(pa)), dict(w, form=fname))
+    for fname, h in made.items():
+        routes = [("serialize/parse", lambda: stix2.parse(h.serialize())), ("deep copy", lambda: copy.deepcopy(h))]
+        if "modified" in h:
+            routes += [("new_version", lambda: h.new_version(**{pb: "y"})), ("revoke", lambda: h.revoke())]
+        for rname, fn in routes:
+            ctx.ev()
+            ctx.count("toplevel_rebuilds")
+            try:
+                with warnings.catch_warnings():
+                    warnings.simplefilter("ignore")
+                    r = fn()
+            except family() as e:
+                ctx.violation("toplevel-extension-property-refused", "%s of a host carrying a registered toplevel-property-extension (built from %s) raised %s: %s" % (rname, fname, type(e).__name__, str(e)[:100]),
+                              dict(w, form=fname, route=rname, exception=repr(e)))
+                continue
+            if r.has_custom or r.get(pa) != 3 or not isinstance(r["extensions"][ename], cls):
+                ctx.violation("toplevel-extension-property-counted-as-custom", "after %s: has_custom=%s, %s=%r, extension class %s" % (rname, r.has_custom, pa, r.get(pa), type(r["extensions"][ename]).__name__),
+                              dict(w, form=fname, route=rname))
+    # a property the extension does not define stays custom
+    ctx.ev()
+    try:
+        host_cls(extensions={ename: {"extension_type": "toplevel-property-extension"}}, **dict(base, **{pa: 3, "x_not_in_extension": 1}))
+        ctx.violation("toplevel-extension-admits-undeclared-property", "a property the registered toplevel extension does not declare was accepted in strict mode", w)
+    except family():
+        pass
+    ctx.nontrivial("toplevel", host_cls.__name__, i % 35)
+    ctx.count("toplevel_cases")
+
+
 WORKLOADS = [
     Workload("history", wl_history, quick=120, thorough=20000),
+    Workload("toplevel-extension", wl_toplevel, quick=30, thorough=1500),
 ]
 
 
